@@ -78,7 +78,7 @@ def k1(chk):
 # K3 scoping histories
 
 NAMES = ('a', 'b')
-DECLKINDS = ('enumconst', 'typedef', 'object', 'stag', 'utag', 'label')
+DECLKINDS = ('enumconst', 'typedef', 'object', 'stag', 'utag', 'label', 'enumself')
 
 
 def events(names):
@@ -196,6 +196,20 @@ def model(hist):
                 else:
                     sc.tag[n] = [k, uid]
                 lines.append('%s %s { char m[%d]; };' % ('struct' if k == 'stag' else 'union', n, uid))
+                continue
+            if k == 'enumself':
+                # `enum { n = n + 1000 }`: the scope of an enumerator begins just AFTER its enumerator (6.2.1p7), so the n in the
+                # initialiser is the outer one; only generated when that is an enumeration constant
+                outer = None
+                for sc2 in reversed(scopes):
+                    if n in sc2.ord:
+                        outer = sc2.ord[n]
+                        break
+                if outer is None or outer[0] != 'enumconst' or n in sc.ord:
+                    return None, None
+                val = outer[1] + 1000
+                sc.ord[n] = ('enumconst', val)
+                lines.append('enum { %s = %s + 1000 };' % (n, n))
                 continue
             if n in sc.ord:
                 why.add('redecl')
@@ -333,7 +347,7 @@ SUBFORMS = ('then', 'else', 'cond', 'then-else-use', 'cond-use', 'while', 'while
 
 def sub_events(n):
     """sub-alphabet for the implicit blocks of selection and iteration statements"""
-    ev = [('{',), ('}',), ('decl', 'enumconst', n), ('decl', 'stag', n), ('use', 'ord', n), ('use', 'tag', n)]
+    ev = [('{',), ('}',), ('decl', 'enumconst', n), ('decl', 'stag', n), ('use', 'ord', n), ('use', 'tag', n), ('decl', 'enumself', n)]
     for form in SUBFORMS:
         for dk in ('enumconst', 'stag'):
             ev.append(('sub', form, dk, n))
